@@ -16,6 +16,7 @@ SHAPES = {  # name -> (n, edges as (parent, child) index pairs)
     "chain4": (4, [(0, 1), (1, 2), (2, 3)]),
     "two_comp": (4, [(0, 1), (2, 3)]),
     "family3": (4, [(0, 3), (1, 3), (2, 3)]),
+    "fork4": (4, [(0, 1), (0, 2), (0, 3)]),
     "mshape": (5, [(0, 2), (1, 2), (1, 3), (4, 3)]),
     "student": (5, [(0, 2), (1, 2), (1, 3), (2, 4)]),
     "chain_coll": (5, [(0, 1), (1, 2), (3, 2), (2, 4)]),
@@ -60,10 +61,16 @@ def bn_instance(rng, iid, n, edges, cards, kind, dens=(10, 12), perm_parents=Tru
             ncol *= len(states[p])
         cols = [_column(rng, cards[i], den, kind) for _ in range(ncol)]
         cpd[v] = {"den": den, "tab": [[cols[j][r] for j in range(ncol)] for r in range(cards[i])]}
+    if kind == "twins":
+        # value-identical CPDs on distinct nodes (same parents/cardinality), and identical root CPDs
+        for a, b in itertools.combinations(nodes, 2):
+            if sorted(parents[a]) == sorted(parents[b]) and len(states[a]) == len(states[b]):
+                parents[b] = list(parents[a])
+                cpd[b] = {"den": cpd[a]["den"], "tab": [list(r) for r in cpd[a]["tab"]]}
     return {"id": iid, "kind": kind, "nodes": nodes, "states": states, "parents": parents, "cpd": cpd, "latents": []}
 
 
-def bn_instances(seed, shapes, per_shape, max_card=3, kinds=("generic", "zeros", "generic", "uniform")):
+def bn_instances(seed, shapes, per_shape, max_card=3, kinds=("generic", "twins", "zeros", "uniform")):
     rng = random.Random(seed)
     out = []
     for name in shapes:
@@ -71,6 +78,9 @@ def bn_instances(seed, shapes, per_shape, max_card=3, kinds=("generic", "zeros",
         for k in range(per_shape):
             if k == 0:
                 cards = [2 + (i % 2) if max_card >= 3 else 2 for i in range(n)]
+            elif kinds[k % len(kinds)] == "twins":
+                c0 = rng.choice([2, 3])
+                cards = [c0] * n
             else:
                 cards = [rng.choice([1, 2, 2, 3, 3][:max_card + 2]) if rng.random() < 0.9 else 1 for _ in range(n)]
                 cards = [min(c, max_card) for c in cards]
